@@ -46,7 +46,9 @@ ExText(x) ==
 
 CDead ==
   [live |-> FALSE, kw |-> "", op |-> "none", ex |-> "nil", opts |-> {}, enc |-> <<>>, err |-> "none",
-   id |-> "", cat |-> "", vpol |-> "none", ppol |-> FALSE, lvl |-> {}]
+   id |-> "", cat |-> "", vpol |-> "none", ppol |-> FALSE,
+   \* further closures: equality, unmarshal and the evaluator (Evaluate hands its arguments to it; without one it reports an error)
+   epol |-> FALSE, upol |-> FALSE, evpol |-> FALSE, lvl |-> {}]
 
 CFresh == [CDead EXCEPT !.live = TRUE]
 
@@ -104,13 +106,17 @@ CStep(s, c) ==
          [] c.op = "UnsetLogLevel" -> [s |-> [s EXCEPT !.lvl = LvUnshift(s.lvl, c.args)], ret |-> <<>>]
          [] c.op = "SetValidityPolicy" -> [s |-> [s EXCEPT !.vpol = c.mode], ret |-> <<>>]
          [] c.op = "SetPresentationPolicy" -> [s |-> [s EXCEPT !.ppol = c.on], ret |-> <<>>]
+         [] c.op = "SetEqualityPolicy" -> [s |-> [s EXCEPT !.epol = c.on], ret |-> <<>>]
+         [] c.op = "SetUnmarshaler" -> [s |-> [s EXCEPT !.upol = c.on], ret |-> <<>>]
+         [] c.op = "SetEvaluator" -> [s |-> [s EXCEPT !.evpol = c.on], ret |-> <<>>]
          [] c.op = "Free" -> [s |-> CDead, ret |-> <<"nil">>]
 
 CObs(s) ==
   IF ~s.live THEN
     [init |-> "false", kw |-> "", op |-> "none", opctx |-> "", ex |-> "nil", len |-> 0, nesting |-> "false",
      cannest |-> "false", paren |-> "false", padded |-> "true", ronly |-> "false", isenc |-> "false",
-     enc |-> <<>>, err |-> "none", id |-> "", cat |-> "", valid |-> "err", str |-> "", bits |-> <<>>, loglevels |-> ""]
+     enc |-> <<>>, err |-> "none", id |-> "", cat |-> "", valid |-> "err", str |-> "", bits |-> <<>>, loglevels |-> "",
+     eqsrc |-> "none", umsrc |-> "none", evsrc |-> "none"]
   ELSE
     [init |-> "true", kw |-> s.kw,
      op |-> IF s.op = "none" THEN "none" ELSE OpText(s.op),
@@ -122,5 +128,9 @@ CObs(s) ==
      isenc |-> B2S(Len(s.enc) > 0), enc |-> s.enc, err |-> s.err, id |-> s.id, cat |-> s.cat,
      valid |-> IF ValidOK(s) THEN "ok" ELSE "err", str |-> RenderC(s),
      bits |-> [n \in 1..Len(CFlagOrder) |-> B2S(CFlagOrder[n] \in s.opts)],
-     loglevels |-> LvString(s.lvl)]
+     loglevels |-> LvString(s.lvl),
+     \* an installed closure's result is what IsEqual / Unmarshal / Evaluate return; without an evaluator Evaluate reports an error
+     eqsrc |-> IF s.epol THEN "closure" ELSE "builtin",
+     umsrc |-> IF s.upol THEN "closure" ELSE "builtin",
+     evsrc |-> IF s.evpol THEN "closure" ELSE "error"]
 =============================================================================
